@@ -6,6 +6,51 @@ BASELINE = ("cd /repo && cargo nextest run --workspace --no-fail-fast --tool-con
             "--profile pb --test-threads 8 --offline")
 
 CLAIMED = {
+    'C15': dict(
+        technique='Lean 4 proof of a shortest-path oracle (Floyd-Warshall by structural recursion, path checker) + translation '
+                  'validation: every answer of the real shortest_path (petgraph astar) on generated graphs is judged by the proved oracle',
+        text='Theorems c15_fw_correct (fw = minimum over all walks, none iff no walk), c15_table_is_fw, c15_bound_covers, '
+             'c15_checkPath_sound/_complete (accepted iff a real path of the graph with that weight), c15_minDist_correct, '
+             'c15_judge_some_iff / c15_judge_none_iff (an answer is judged OK iff it is a real start->stop path of minimum total '
+             'weight between live nodes, resp. none iff an end point is absent or the target unreachable) and '
+             'c15_shortest_path_judged_ok: the same for the implementation model (contains_node guards mirrored) on every graph '
+             'reached by any build/removal history (via the C08 refinement). petgraph astar itself is NOT modelled step by step: '
+             'its result is validated per generated input by this oracle, up to ties (translation validation).',
+        note='Trusted: Lean kernel; the oracle statements; the correspondence run (graphs from C08-style histories incl. cycles, zero '
+             'weights, ties, self-loops, removals; all ordered pairs incl. absent end points); petgraph astar not proved; path sums < 2^63.',
+        ref='DESIGN.md §7 C15'),
+    'C09': dict(
+        technique='Lean 4 refinement proof (inductive invariant over operation histories) of a hand-written model of Context '
+                  '(base UltraGraph, extra UltraGraphs, selection, two index maps) over the C08 graph model against a specification '
+                  'built from plain directed-graph stores + differential correspondence run against the real Context',
+        text='Theorem c09_refinement: for every history interleaving base-context operations, extra_ctx_add_new, switching / unsetting / '
+             'mis-setting the current context, extra-context node and edge operations and set_index/get_index, the outputs of the '
+             'implementation model are exactly those the specification allows (every store answers as a plain directed-graph store in '
+             'the sense of C08, an operation touches only the store it addresses) and the final states correspond; c09_reachable_inv; '
+             'frame theorems c09_base_ops_frame, c09_extra_ops_frame (base, every OTHER extra context, selection and maps untouched), '
+             'c09_mgmt_ops_frame; c09_extra_ops_without_selection_fail_clean; c09_set_current_refused_iff (refused iff the id is not 0 '
+             'and not an existing extra context); c09_index_get_after_set, c09_index_maps_independent, c09_index_maps_frame.',
+        note='Trusted: Lean kernel; the hand-written model Model/Ctx.lean over Model/UGraph.lean (tied to the code by the correspondence '
+             'run: base, every extra context incl. a non-existent one, and both index maps re-read after every operation); contextoids '
+             'represented by their id (payload and kind checked by the harness on every read), relation kinds not observable through '
+             'the Context API; extra_ctx_set_current_id(0) is accepted by the code (deselect) and specified so; F2/F3 fixes applied.',
+        ref='DESIGN.md §7 C09'),
+    'C08': dict(
+        technique='Lean 4 refinement proof (inductive invariant over operation histories) of a hand-written model of '
+                  'UltraMatrixGraph over petgraph 0.7.1 MatrixGraph against a plain directed-graph specification + '
+                  'differential correspondence run of model and spec oracle against the real UltraGraph',
+        text='Theorem c08_refinement: for every history (any length, any interleaving) of add_node, add_root_node, remove_node, '
+             'add_edge, add_edge_with_weight, remove_edge, clear and every observer, the outputs of the implementation model '
+             '(id allocator with reuse, adjacency cells, petgraph edge counter, node_map, index_map, root) are exactly those the '
+             'directed-graph specification allows (an add may return any index that is not live) and the final states correspond; '
+             'c08_reachable_wf, c08_never_panics, c08_add_fresh, c08_value_until_removed, c08_edges_between_live, '
+             'c08_remove_edge_effect / c08_remove_node_effect / c08_add_edge_effect, c08_failed_ops_change_nothing. The model is '
+             'the code with fixes F2 (remove_edge erased both end nodes from index_map) and F3 (stale number_edges after remove_node) '
+             'applied; the defects of the unrepaired code are kernel-checked witnesses (c08_F2_…, c08_F3_…) replayed on the real code.',
+        note='Trusted: Lean kernel; the hand-written model Model/UGraph.lean (tied to the code only by the correspondence run: '
+             'every observer re-read after every mutator, all constructors, initial capacities 0-4, index reuse); petgraph 0.7.1 '
+             'MatrixGraph/IdStorage is modelled (matrix growth as identity), not proved; hash-map iteration order canonicalised by sorting.',
+        ref='DESIGN.md §7 C08, §5.1, §6 F2/F3'),
     'C12': dict(
         technique='Lean 4 proof (containers reduced to the item list they hand to the trait default methods; permutation '
                   'invariance; trace decomposition of reason_all_causes) + differential correspondence run over six holders',
